@@ -38,7 +38,7 @@ def rule(tier):
 def floors(tier):
     return {"evaluations": 350 if tier == "quick" else 3000, "distinct": 350 if tier == "quick" else 3000,
             "counters": {"fixture_cases": 200, "partial_variants": 150, "api_documents": 150, "tables_compared": 800, "row_heights_compared": 10000, "col_widths_compared": 5000,
-                         "documents_with_borders": 40, "untouched_variants": 90, "later_cycles": 300, "captions_set": 30, "heights_set": 30, "widths_set": 30, "merges_full_height_set": 8, "merges_full_width_set": 8, "api_on_source_documents": 60}}
+                         "documents_with_borders": 40, "untouched_variants": 90, "later_cycles": 300, "captions_set": 30, "heights_set": 30, "widths_set": 30, "merges_full_height_set": 8, "merges_full_width_set": 8, "api_on_source_documents": 60, "structural_edits_after_sizes_set": 20}}
 
 
 def plan(tier, seed):
@@ -235,7 +235,8 @@ def api_recipe(rng, fixture=None):
     """A document built through the API - or a source document opened from a file - with a random subset of
     the geometry/label attributes set through the API."""
     ops = []
-    R, C = rng.randint(2, 8), rng.randint(2, 6)
+    created_headers = {}
+    R, C = (2, 2) if rng.random() < .2 else (rng.randint(2, 8), rng.randint(2, 6))
     init = {"num_rows": R, "num_cols": C}
     if rng.random() < .4:
         init["sheet_name"] = rng.choice(["Feuille é", "数表", "Sheet A"])
@@ -246,10 +247,14 @@ def api_recipe(rng, fixture=None):
         init = {"fixture": fixture}
         tables = fixture_tables(fixture)
     if rng.random() < .4 and fixture is None:
-        r2, c2 = rng.randint(2, 6), rng.randint(2, 5)
+        r2, c2 = rng.randint(2, 10), rng.randint(2, 7)
         op = {"op": "add_table", "sheet": 0, "table_name": "Second", "num_rows": r2, "num_cols": c2}
         if rng.random() < .6:
             op["x"], op["y"] = float(rng.randrange(0, 600)), float(rng.randrange(0, 900))
+        if rng.random() < .5:
+            # header counts given when the table is created (they are the new table's, whatever the tables before it look like)
+            op["num_header_rows"], op["num_header_cols"] = rng.randint(0, min(5, r2)), rng.randint(0, min(5, c2))
+            created_headers[(0, 1)] = (op["num_header_rows"], op["num_header_cols"])
         ops.append(op)
         tables.append(((0, 1), r2, c2))
     if rng.random() < .3 and fixture is None:
@@ -287,6 +292,26 @@ def api_recipe(rng, fixture=None):
         mine = ops[first_op:]
         rng.shuffle(mine)
         ops[first_op:] = mine
+        if not lite and rng.random() < .3:
+            # the table grows or shrinks at its far end afterwards: the sizes of the rows and columns that stay are theirs
+            for _ in range(rng.randint(1, 2)):
+                which = rng.choice(["add_column", "add_row", "delete_column", "delete_row"])
+                if which == "delete_column" and C_ <= 2 or which == "delete_row" and R_ <= 2:
+                    continue
+                if which.startswith("delete") and any(o["op"] in ("row_height", "col_width") and o["tbl"] == tbl and o.get("r", o.get("c")) == (R_ - 1 if "row" in which else C_ - 1) for o in ops[first_op:]):
+                    continue  # the row / column whose size was set is not the one removed
+                if which.startswith("delete") and any(o["op"] in ("header_rows", "header_cols") and o["tbl"] == tbl for o in ops[first_op:]):
+                    continue
+                ops.append({"op": which, "tbl": tbl})
+                if which == "add_column":
+                    C_ += 1
+                elif which == "add_row":
+                    R_ += 1
+                elif which == "delete_column":
+                    C_ -= 1
+                else:
+                    R_ -= 1
+                setflags.add("structural_edits_after_sizes")
         if borders:
             for _ in range(rng.randint(1, 4)):
                 r, c = rng.randrange(R_), rng.randrange(C_)
@@ -334,6 +359,9 @@ def api_case(case, rec):
                 asked[(tuple(op["tbl"]), k, op.get("r", op.get("c")))] = op.get("h", op.get("w"))
             elif k in ("header_rows", "header_cols"):
                 asked[(tuple(op["tbl"]), k)] = op["n"]
+            elif k == "add_table" and "num_header_rows" in op:
+                asked.setdefault(((0, 1), "header_rows"), op["num_header_rows"])
+                asked.setdefault(((0, 1), "header_cols"), op["num_header_cols"])
             elif k == "caption":
                 asked[(tuple(op["tbl"]), k)] = op["text"]
             elif k == "name_enabled":
